@@ -54,7 +54,10 @@ m = {"breaks_property": pid, "what_it_does": a.get("what_it_does", ""), "needs":
 old = os.path.join(out, "meta.json")
 if os.path.exists(old):
     try:
-        m["independent_confirmation"] = json.load(open(old)).get("independent_confirmation", m["independent_confirmation"])
+        prev = json.load(open(old))
+        m["independent_confirmation"] = prev.get("independent_confirmation", m["independent_confirmation"])
+        if prev.get("demonstration") and not prev["demonstration"].startswith("cd "):
+            m["demonstration"] = prev["demonstration"]
     except Exception:
         pass
 json.dump(m, open(old, "w"), indent=1)
